@@ -590,7 +590,7 @@ func c01Reader(c *fw.Ctx) fw.Outcome {
 			return fw.Bad(key, string(doc), "SRT reader, rendering {%s}: %s\ndocument: %q", o, firstDiff(exp, have), trunc(string(doc), 900))
 		}
 		c.Feature(fmt.Sprintf("read eol=%q bom=%v idx=%d sep=%s tags=%d eof=%d", o.eol, o.bom, o.indexKind, o.sep, o.tagMode, o.atEOF))
-		if c.Idx%4 == 3 {
+		if c.Idx%4 == 1 {
 			if msg := altEntryPoints(c, "srt", doc, got, nil); msg != "" {
 				return fw.Bad(key, string(doc), "%s", msg)
 			}
